@@ -14,6 +14,7 @@ import (
 
 	"github.com/google/uuid"
 	"github.com/projecteru2/core/discovery/helium"
+	"github.com/projecteru2/core/store"
 	coretypes "github.com/projecteru2/core/types"
 	"verif/harness/vt"
 )
@@ -31,6 +32,38 @@ type subscriber struct {
 	last   []string
 	n      int
 	closed bool
+}
+
+// streamSpy forwards the store's service stream to helium and notes when the STORE ends it (an etcd error such as a
+// timed-out request under load): helium then has no source any more; such a run is outside the property and not judged.
+type streamSpy struct {
+	store.Store
+	mu     sync.Mutex
+	ended  bool
+	ctxEnd func() bool
+}
+
+func (s *streamSpy) ServiceStatusStream(ctx context.Context) (chan []string, error) {
+	src, err := s.Store.ServiceStatusStream(ctx)
+	if err != nil {
+		s.mu.Lock()
+		s.ended = true
+		s.mu.Unlock()
+		return src, err
+	}
+	out := make(chan []string)
+	go func() {
+		defer close(out)
+		for v := range src {
+			out <- v
+		}
+		if ctx.Err() == nil { // not our own shutdown
+			s.mu.Lock()
+			s.ended = true
+			s.mu.Unlock()
+		}
+	}()
+	return out, nil
 }
 
 func kindOf(s string) string {
@@ -56,7 +89,8 @@ func TestClusterDiscovery(t *testing.T) {
 		run++
 		env.WipeStore()
 		ctx, cancelAll := context.WithCancel(context.Background())
-		h := helium.New(ctx, coretypes.GRPCConfig{ServiceDiscoveryPushInterval: time.Second}, env.Raw)
+		spy := &streamSpy{Store: env.Raw}
+		h := helium.New(ctx, coretypes.GRPCConfig{ServiceDiscoveryPushInterval: time.Second}, spy)
 		time.Sleep(100 * time.Millisecond)
 		unreg := map[string]func(){}
 		subs := map[string]*subscriber{}
@@ -160,7 +194,10 @@ func TestClusterDiscovery(t *testing.T) {
 		}
 		sort.Strings(regs)
 		sort.Slice(unsubs, func(i, j int) bool { return unsubs[i]["s"].(string) < unsubs[j]["s"].(string) })
-		out.Emit(Event{"ev": "Disc", "run": run, "ops": in.Ops, "subs": final, "unsubs": unsubs, "registered": regs})
+		spy.mu.Lock()
+		envfail := spy.ended
+		spy.mu.Unlock()
+		out.Emit(Event{"ev": "Disc", "run": run, "ops": in.Ops, "subs": final, "unsubs": unsubs, "registered": regs, "envfail": envfail})
 		for _, un := range unreg {
 			un()
 		}
